@@ -6,6 +6,7 @@
    License, v. 2.0. If a copy of the MPL was not distributed with this
    file, You can obtain one at http://mozilla.org/MPL/2.0/. */
 
+#include <limits.h>
 #include <stdlib.h>
 #include <string.h>
 #include <stdio.h>
@@ -143,14 +144,20 @@ void *jwt_base64uri_decode(const char *src, int *ret_len)
 {
 	void *buf;
 	char *new;
+	size_t src_len;
 	int len, i, z;
 
 	if (src == NULL || ret_len == NULL)
 		return NULL; // LCOV_EXCL_LINE
 			     // Should really be an abort
 
+	/* The lengths below are int; leave room for the padding. */
+	src_len = strlen(src);
+	if (src_len > INT_MAX - 4)
+		return NULL;
+
 	/* Decode based on RFC-4648 URI safe encoding. */
-	len = (int)strlen(src);
+	len = (int)src_len;
 
 	/* Validate length */
 	z = (len % 4);
